@@ -25,6 +25,7 @@ the store (random UUIDs) — the model's counter is the abstraction of that.
 Tie: the `stmts` correspondence (see vlib/c04.py).
 -/
 import BW.Proofs.Statements
+import BW.Proofs.HooksStmt
 
 namespace BW.Props.C04
 open BW.Model BW.Spec BW.Model.Stm BW.Proofs.Statements
@@ -175,6 +176,39 @@ def exSt : VStore := { graphs := [([63, 97], [])] }
 def exIns : DStmt := { kind := .insert, outputs := [[63, 97]], data := [⟨⟨[47, 117], [97]⟩, .imm [112], .lit (.int 1)⟩] }
 example : (exec exSt exIns).2 = .ok ∧ ((exec exSt exIns).1.get [63, 97]).map (·.length) = some 1 := by decide
 
+/-! ### From the text to the statement (the semantic hooks, `BW.Model.Hooks`, run against the real hooks on
+    every generated statement; which symbol feeds which hook: `C18.routing_wf`) -/
+
+/-- The body of INSERT / DELETE means what it says: the data accumulator over the tokens of the body —
+    `{`, then per triple its subject, predicate and object (node, predicate or literal) tokens after a
+    separator, then `} ;` — collects exactly the triples written, in order, whatever an earlier statement left
+    in its closure (`C18.hooks_keep_no_state`), and ends with no triple under construction. -/
+theorem data_means_its_tokens (ts d : List Triple) (c : Nat) :
+    BW.Proofs.HooksStmt.dataRun d { cur := c }
+      (ts.flatMap BW.Proofs.HooksStmt.tripleToks ++ [BW.Proofs.HooksStmt.tk .other, BW.Proofs.HooksStmt.tk .other]) =
+      some (d ++ ts, { cur := c }) :=
+  BW.Proofs.HooksStmt.data_denote ts d c
+
+/-- CREATE / DROP GRAPH and INTO / IN mean what they say: the graphs are the bindings listed, in order. -/
+theorem graph_list_means_its_tokens (gs l : List Bytes) :
+    BW.Proofs.HooksStmt.namesRun l (BW.Proofs.HooksStmt.commaToks gs) = some (l ++ gs) :=
+  BW.Proofs.HooksStmt.names_denote gs l
+
+/-- The template of CONSTRUCT / DECONSTRUCT means what it says: driven by the clause hooks the grammar
+    attaches, the template hooks over `s p o ; p' o' . s' …` build exactly the clauses written — subject (node,
+    blank node or binding), per pair its predicate (full or binding) and object (node, literal, full predicate
+    or binding), in order — and leave no clause under construction. -/
+theorem template_means_its_tokens (cs : List BW.Proofs.HooksStmt.ClauseA) (hok : ∀ c ∈ cs, c.ok ∧ c.pairs ≠ [])
+    (w : BW.Model.Hooks.WState) (hw : w.wcc = some {}) :
+    BW.Model.Hooks.wrun w (BW.Proofs.HooksStmt.triplesEvs cs) =
+      some { w with head := { w.head with ccs := w.head.ccs ++ cs.map BW.Proofs.HooksStmt.ClauseA.denote } } :=
+  BW.Proofs.HooksStmt.template_denote cs hok w hw
+
+/-- Non-vacuity: `{ ?s "p"@[] ?o ; ?q /u<a> }` has one clause with two pairs. -/
+example : ((BW.Model.Hooks.wrun { wcc := some {} } (BW.Proofs.HooksStmt.triplesEvs
+      [{ s := .bind [63, 115], pairs := [{ p := .pred (.imm [112]), o := .bind [63, 111] }, { p := .bind [63, 113], o := .obj (.node ⟨[47, 117], [97]⟩) }] }])).map
+    fun w => w.head.ccs.map fun c => (c.sBinding, c.pairs.length)) = some [([63, 115], 2)] := by decide
+
 end BW.Props.C04
 
 #print axioms BW.Props.C04.insert_effect
@@ -188,3 +222,6 @@ end BW.Props.C04
 #print axioms BW.Props.C04.plain_row
 #print axioms BW.Props.C04.reified_row
 #print axioms BW.Props.C04.blank_nodes_fresh
+#print axioms BW.Props.C04.data_means_its_tokens
+#print axioms BW.Props.C04.graph_list_means_its_tokens
+#print axioms BW.Props.C04.template_means_its_tokens
